@@ -57,6 +57,7 @@ func cmdDebug(args []string) int {
 	budget := fs.Int("t", 10, "budget seconds")
 	all := fs.Bool("all", false, "print discharged obligations too")
 	optsFlag := fs.String("o", "", "peg options for a grammar unit")
+	model := fs.Bool("model", false, "for every proof obligation that does not discharge, print a candidate countermodel")
 	_ = fs.Parse(args[1:])
 	r := NewRun("debug", "quick", 0)
 	r.Budget = *budget
@@ -125,9 +126,17 @@ func cmdDebug(args []string) int {
 			bad++
 		}
 		fmt.Printf("%-8s %-60s %s %.2fs %s\n      %s\n", ob.Result.Verdict, ob.Name, ob.Result.Backend, ob.Result.Seconds, ob.Pos, ob.Detail)
+		if !ok && !ob.Canary && *model {
+			fmt.Println("      " + strings.ReplaceAll(candidateModel(ob), "\n", "\n      "))
+		}
 		if (!ok || *all) && *dump != "" { // with -all every printed obligation is dumped
 			_ = os.MkdirAll(*dump, 0o755)
 			fmt.Println("      dumped:", dumpQuery(ob, *dump))
+		}
+	}
+	if *all || *model {
+		for _, a := range sortedKeys(r.Assume) {
+			fmt.Println("ASSUMED", a)
 		}
 	}
 	fmt.Printf("obligations=%d not-as-expected=%d\n", len(r.Obls), bad)
@@ -141,6 +150,8 @@ func loadNamedUnit(name string) (*Unit, []string, error) {
 		return loadSetUnit()
 	case "runtime":
 		return loadRuntimeUnit()
+	case "main":
+		return loadMainUnit()
 	}
 	return nil, nil, fmt.Errorf("unknown unit %s", name)
 }
@@ -179,8 +190,13 @@ func loadRuntimeUnit() (*Unit, []string, error) {
 		"ensures forall(i, imp(0 <= i && i < len(x), 0 <= sortPerm(sbase(x), i) && sortPerm(sbase(x), i) < len(x) && x[sortPerm(sbase(x), i)] == old(x[i])))",
 		"ensures forall(i, imp(0 <= i && i < len(x), 0 <= sortInv(sbase(x), i) && sortInv(sbase(x), i) < len(x) && x[i] == old(x[sortInv(sbase(x), i)])))",
 		"modifies Elems.Int at b where b == sbase(x)")}
+	u.TrustedExt["slices.Clone"] = &ExtSpec{Key: "slices.Clone", Params: []string{"x"}, Contract: mkContract("slices.Clone",
+		"ensures soff(result) == 0 && len(result) == len(x) && fresh(sbase(result)) && sbase(result) > 0",
+		"ensures forall(i, imp(0 <= i && i < len(x), at(elems(result), i) == at(elems(x), soff(x) + i)))",
+		"modifies Elems.DT_token at b where false")}
+	u.OpaquePreds = map[string]bool{}
 	u.TrustedExt["fmt.Sprintf"] = &ExtSpec{Key: "fmt.Sprintf", Params: []string{"format"}}
 	u.TrustedExt["strconv.Quote"] = &ExtSpec{Key: "strconv.Quote", Params: []string{"s"}}
-	keys := []string{"tokens.Add", "tokens.Trim", "Init.add", "Init.matchDot", "translatePositions", "Init.reset", "Init.parse", "parseError.Error"}
+	keys := []string{"tokens.Add", "tokens.Trim", "Init.add", "Init.matchDot", "translatePositions", "Init.reset", "Init.parse", "parseError.Error", "Init.memoize", "Init.memoizedResult"}
 	return u, keys, nil
 }
